@@ -224,6 +224,14 @@ def s2(ctx, rep):
             d[s.targets[0].id] = s.value
     maskv = [k for k, v in d.items() if isinstance(v, ast.Call) and fn_name(v) == "pareto_efficient"]
     if len(maskv) != 1:
+        inline = [x for s in body for x in walk_shallow(s) if isinstance(x, ast.Call) and fn_name(x) == "pareto_efficient"]
+        if len(inline) == 1 and not maskv:
+            # the mask is computed but used once only (it has no name of its own any more): it selects the front, nothing removes the
+            # front from the remaining rows with it
+            rep.bad("S2", "agreement", "nondominated_sort: front computed on the remaining rows; remaining = remaining[~mask]", f, inline[0],
+                    "the Pareto mask is used to select the front only: the remaining set is not reduced by exactly the current front "
+                    "(items are ranked twice, or never)")
+            return
         raise AnchorError("nondominated_sort: pareto mask not found")
     mv = maskv[0]
     rem = None
